@@ -12,7 +12,7 @@ CONSTANTS
   Kinds = {"pk"}
   Defaults = {FALSE}
   MaxArgs = 2
-  KwCalls = TRUE
+  KwCalls = FALSE
   MaxRet = 4
   DistinctRets = FALSE
   MaxUnionArgs = 1
